@@ -605,6 +605,11 @@ impl BuiltInFunction {
                     return Err(RuntimeError::from("median requires at least one number"));
                 }
 
+                // NaN has no place in the ordering; the median of such a list is NaN
+                if nums.iter().any(|n| n.is_nan()) {
+                    return Ok(Value::Number(f64::NAN));
+                }
+
                 nums.sort_by(|a, b| a.partial_cmp(b).unwrap());
                 let len = nums.len();
                 if len % 2 == 0 {
@@ -632,6 +637,11 @@ impl BuiltInFunction {
                     return Err(RuntimeError::from(
                         "percentile requires at least one number"
                     ));
+                }
+
+                // NaN has no place in the ordering; a percentile of such a list is NaN
+                if nums.iter().any(|n| n.is_nan()) {
+                    return Ok(Value::Number(f64::NAN));
                 }
 
                 nums.sort_by(|a, b| a.partial_cmp(b).unwrap());
